@@ -148,6 +148,25 @@ func (li *lexInv) ub(v ssa.Value, at *ssa.BasicBlock, depth int) ubound {
 	case *ssa.BinOp:
 		switch x.Op {
 		case token.ADD:
+			// strings.Index(input[pos:], n) + len(n), the same n: the end of the occurrence found, within the
+			// rest whatever n is
+			for _, pair := range [][2]ssa.Value{{x.X, x.Y}, {x.Y, x.X}} {
+				idx, isIdx := stripConv(pair[0]).(*ssa.Call)
+				ln, isLen := stripConv(pair[1]).(*ssa.Call)
+				if !isIdx || !isLen {
+					continue
+				}
+				if sc := idx.Call.StaticCallee(); sc == nil || sc.String() != "strings.Index" || len(idx.Call.Args) != 2 || !li.isRestSlice(idx.Call.Args[0]) {
+					continue
+				}
+				if b, ok := ln.Call.Value.(*ssa.Builtin); !ok || nm(b) != "len" || len(ln.Call.Args) != 1 || ln.Call.Args[0] != idx.Call.Args[1] {
+					continue
+				}
+				if !nonNegAt(idx, at) {
+					return ubound{why: "result of strings.Index used where `not found` (-1) has not been excluded"}
+				}
+				return ubound{a: 1, k: 0, ok: true}
+			}
 			l, r := li.ub(x.X, at, depth+1), li.ub(x.Y, at, depth+1)
 			if !l.ok {
 				return l
@@ -697,6 +716,38 @@ func c08CommentSearchStart(w *World, r *Report, rule string) {
 					continue
 				}
 				closer := ""
+				restArg := ssa.Value(nil)
+				if len(c.Call.Args) > 0 {
+					restArg = c.Call.Args[0]
+				}
+				// the search handed to a helper of the package that is given the terminator
+				if h := c.Call.StaticCallee(); h.Pkg == f.Pkg && h.Blocks != nil && h != f {
+					for _, hb := range h.Blocks {
+						for _, hin := range hb.Instrs {
+							hc, ok := hin.(*ssa.Call)
+							if !ok || hc.Call.StaticCallee() == nil || len(hc.Call.Args) != 2 {
+								continue
+							}
+							switch hc.Call.StaticCallee().String() {
+							case "strings.Index", "strings.Cut", "strings.Contains":
+							default:
+								continue
+							}
+							prm, isP := hc.Call.Args[1].(*ssa.Parameter)
+							if !isP {
+								continue
+							}
+							for k, q := range h.Params {
+								if q == prm && k < len(c.Call.Args) {
+									if kc, ok := c.Call.Args[k].(*ssa.Const); ok && kc.Value != nil && kc.Value.Kind() == constant.String {
+										closer = constant.StringVal(kc.Value)
+										restArg = hc.Call.Args[0]
+									}
+								}
+							}
+						}
+					}
+				}
 				switch c.Call.StaticCallee().String() {
 				case "strings.Index", "strings.Cut", "strings.Contains", "strings.SplitN", "strings.IndexAny":
 					k, ok := c.Call.Args[1].(*ssa.Const)
@@ -716,7 +767,9 @@ func c08CommentSearchStart(w *World, r *Report, rule string) {
 					}
 					closer = string(rune(ch))
 				default:
-					continue
+					if closer == "" {
+						continue
+					}
 				}
 				if closer == "" {
 					continue
@@ -733,7 +786,7 @@ func c08CommentSearchStart(w *World, r *Report, rule string) {
 					r.OK(rule, what, c.Pos(), "opener and terminator share no characters: any start within the opener finds the same terminator")
 					continue
 				}
-				if !li.isRestSlice(c.Call.Args[0]) {
+				if !li.isRestSlice(restArg) {
 					r.Fail(rule, what, c.Pos(), "the text searched is not input[pos:]: start of the search relative to the opener not determined")
 					continue
 				}
